@@ -296,4 +296,29 @@ def specExit (usage : Bool) (first : Option Raised) (exit : Exit) : Bool :=
     | none => exit == ⟨0, false⟩
     | some r => r.documented && exit == handler r && isDocumentedCode exit.code && !exit.traceback
 
+/-! ## multi-file projects: the class of the import graph decides the front end's first diagnostic -/
+
+/-- classes of multi-file projects as far as the exit status goes: every import resolves and no file imports itself (directly or
+through others, under whatever spelling of its path: sub-directories, `..` segments, include directories, the same file reached
+along several paths); a circular import; an import of a file that does not exist -/
+inductive ProjectClass
+  | valid | cycle | missingImport
+deriving DecidableEq, Repr
+
+/-- the documented status of the class: 0; 150 (the circular import is an IDL parsing error at the directive); 2 (file not found) -/
+def ProjectClass.code : ProjectClass → Nat
+  | .valid => 0
+  | .cycle => 150
+  | .missingImport => 2
+
+/-- the front end's verdict on a project of the class; `more` = return codes of the diagnostics recorded after the first one -/
+def projectFront : ProjectClass → List Nat → StageResult
+  | .valid, _ => .ok
+  | .cycle, more => .raised (.appList (150 :: more))
+  | .missingImport, more => .raised (.appList (2 :: more))
+
+/-- specification of the exit status for a project of a known class that is generated under a valid configuration with known,
+configured targets -/
+def specProject (c : ProjectClass) (exit : Exit) : Bool := exit == ⟨c.code, false⟩
+
 end Pydjinni.Sys
